@@ -323,6 +323,11 @@ def _run(ctx, binary, thorough, pool):
         if stats.get("inflight_reads", 0) < 50 or stats.get("mutations_Restart", 0) < 20:
             raise vlib.Broken("replay is vacuous: %s in-flight reads, %s restarts" % (
                 stats.get("inflight_reads", 0), stats.get("mutations_Restart", 0)))
+        # the section scenarios: the directed walks guarantee every fork shape; the simulated behaviours must add to it
+        replaced = sum(d["section_block_replaced"] for d in scen.values())
+        if replaced < 20 or len(scen) < 8 or stats.get("sweeps", 0) < 200:
+            raise vlib.Broken("simulated behaviours are vacuous for the section scenarios: %d scenarios, %d behaviours replace "
+                              "the block carrying the section, %d sweeps" % (len(scen), replaced, stats.get("sweeps", 0)))
         # the response-flag dimension: every region the property distinguishes was answered correctly at
         # least a few times (v0.10, all backends)
         need = {"lub:cleared-or-zero-written": 12, "lub:older-than-block": 12, "lub:never-written": 12,
@@ -360,6 +365,13 @@ def _run(ctx, binary, thorough, pool):
         "are indistinguishable by design of the API",
         "response_flags exist on v0.10 only: v0.8 / v0.9 are asked the same question without the parameter; "
         "proof_facts: [] on INVOKE v0/v1 objects (the code does this for every INVOKE) is taken as it is",
+        "the sweep's oracle is the fold of the state diffs the harness handed to Blockchain.Store along the chain the "
+        "node holds; it is cross-checked against RpcRead.tla's demand on every state read the specification generated",
+        "residues no C08 read method can observe are not switches of RpcRead.tla (class-hash / nonce entry of a deploy, "
+        "legacy deployment height of a purged contract, casm metadata of a migration): StateHistory.tla (C03) has them; "
+        "a migration is visible here through getStateUpdate (v0.10) and through the Store of a later migration succeeding",
+        "caches are not modelled: a cache keyed by number or hash surviving a reorg shows because the sweep reads every "
+        "height before the Revert, after it and after the replacement block on the same node",
     ]
     return ctx.finish(
         "model_checking",
@@ -368,10 +380,22 @@ def _run(ctx, binary, thorough, pool):
         "2^64-1 numbers, reverted, unknown and zero hashes, index 2^62; v0.10 response_flags omitted / empty / the method's "
         "flag / ill-formed on the five methods that take them, with a per-slot write history (set, overwritten, cleared, "
         "re-written with the same value, zero onto zero) behind last_update_block and proof facts on some INVOKE v3; "
-        "Restart; composite in-flight steps) for the as-is and the repaired model, two expected-violation configurations "
-        "for the last_update_block mechanism + TLC-simulated behaviours of 48 steps replayed request by request on "
+        "Restart; composite in-flight steps) for the as-is and the repaired model, with the state methods answered from "
+        "the modelled history buckets of both state backends (entries per state-diff section, deployment and declaration "
+        "heights; head reader for latest) + the same for 10 section scenarios (storage overwrite / clearing / zero onto "
+        "zero, nonce only, replace_class only, deploy only, deploy + nonce, declare Cairo-0 / Sierra, migrated compiled "
+        "class; setup block + 3 variants per height: S for target 1 / S for target 2 / empty diff; state methods and "
+        "getStateUpdate by every number, every stored hash and latest) + 13 residue-switch configurations (a Revert leaves "
+        "one section's entries of one backend behind) each refuted by TLC, two expected-violation configurations for the "
+        "last_update_block mechanism; DIRECTED: the 13 counterexamples and a depth-first walk over every chain of every "
+        "scenario (25 [thorough: 79] mutators each) replayed on legacy + new state x v0.8/v0.9/v0.10, the replayer reading "
+        "every height by number and hash (head also by latest; the number above the head and reverted hashes must be "
+        "not-found) with the five state methods and getStateUpdate after EVERY mutator, judged by the fold of the stored "
+        "state updates of the current chain; SIMULATED: TLC-simulated behaviours of 48 steps (half base alphabet, half a "
+        "section scenario with fork-biased steps) replayed request by request on "
         "v0.8/v0.9/v0.10 x {legacy, new state on memory, legacy on Pebble} behind a poisoning store (lent buffers are "
-        "scribbled), with restarts, retained-response checks and gated in-flight requests (every store read of every "
+        "scribbled), with restarts, retained-response checks, the same sweep after every Revert and every Store that "
+        "follows one (one API version in turn) and gated in-flight requests (every store read of every "
         "version paused while Store/Revert/SetL1Head run; judged: sequential re-read afterwards, no hang; torn answers "
         "are observations); non-trivial = every behaviour interleaves Store/Revert/SetL1Head with reads, >= 100 reads "
         "answered with data, every method and error kind seen, dropped tx hashes read with their slot re-occupied, "
